@@ -163,3 +163,39 @@ PLANS["C15"] = {
     "level_note": "Trusted: vcore::json reader and the acceptance predicate.",
     "design_ref": "3/C15",
 }
+
+PLANS["C05"] = {
+    "title": "UDP connection ids are bound to source IP and time window",
+    "level": "exploration",
+    "engine": "codec_diff",
+    "technique": "runtime monitor: real ConnectionValidator with hooked clock vs reference predicate over integers on a boundary grid; forged ids re-tested against fresh keys (structural, not chance, acceptance)",
+    "packages": ["vudp"],
+    "parallel": 16,
+    "steps": lambda tier, seed: ([{"name": "udp_validator", "bin": "udp_validator", "args": ["--rounds", "400000", "--budget_s", "20"]}] if tier == "quick"
+                                 else shards("udp_validator", "udp_validator", 16, ["--rounds", "100000000", "--budget_s", "100"])),
+    "min_evaluations": {"quick": 1000000, "thorough": 50000000},
+    "assumptions": ["the 2^-32 guessing bound is checked structurally: only an acceptance that persists across three fresh keys is a violation; first-stage chance acceptances are reported"],
+    "level_text": "Exploration: for max_connection_age in {0,1,2,59,60,61,120,u32::MAX-1,u32::MAX} and issue/check times on a grid around every boundary (t_issue+age-1/+0/+1, t_check+60/+61, 0, near u32::MAX) the real validator (and a clone, as another socket worker holds) must agree with the reference predicate for ids checked from their own IP (any port, plain and IPv4-mapped forms); ids checked from other addresses, all 64 single-bit and sampled double-bit alterations, ids of a second validator instance and random ids must be rejected unless the acceptance fails to persist across fresh keys.",
+    "level_note": "Trusted: the reference predicate; the verif_set_elapsed hook that sets the validator's private whole-second clock.",
+    "design_ref": "3/C05",
+}
+
+PLANS["C12"] = {
+    "title": "No network input can crash parsing or request handling",
+    "level": "exploration",
+    "engine": "crash_shards",
+    "technique": "sharded child processes with write-ahead case log, catch_unwind on 2 MiB stacks and a counting allocator over structure-aware mutated inputs; handler field extremes inside the swarm_diff engines (overflow checks on)",
+    "packages": ["vproto", "vudp", "vhttp", "vws"],
+    "parallel": 4,
+    "steps": lambda tier, seed: ([{"name": "crash_shards", "bin": "crash_shards", "args": ["--cases", "120000", "--budget_s", "50"], "timeout_s": 600}]
+                                 + swarm_steps("udp_swarm", "udp_swarm", "quick", quick_budget=8) + swarm_steps("http_swarm", "http_swarm", "quick", quick_budget=8) + swarm_steps("ws_swarm", "ws_swarm", "quick", quick_budget=8)
+                                 if tier == "quick" else
+                                 [{"name": "crash_shards", "bin": "crash_shards", "args": ["--cases", "3000000", "--budget_s", "280"], "timeout_s": 1500}]
+                                 + shards("udp_swarm", "udp_swarm", 2, ["--histories", "100000000", "--budget_s", "100"]) + shards("http_swarm", "http_swarm", 2, ["--histories", "100000000", "--budget_s", "100"]) + shards("ws_swarm", "ws_swarm", 2, ["--histories", "100000000", "--budget_s", "100"])),
+    "min_evaluations": {"quick": 500000, "thorough": 5000000},
+    "assumptions": ["reverse-proxy mode panics by design when the configured header is absent or unparsable; that path is excluded (deployment precondition)",
+                    "allocation bound: peak live bytes during one call <= 512*len + 1 MiB (far above what the JSON tape and serde buffering legitimately need; measured ratio on accepted inputs is reported)"],
+    "level_text": "Exploration with sanitizer-style oracles: eleven parser entry points receive valid messages and structure-aware mutations up to the real buffer sizes (8 KiB datagram, 2 KiB HTTP request, 64 KiB WebSocket message / reply); a panic, an abort of the child (stack overflow, allocation failure - attributed through the write-ahead log) or a peak allocation above the bound is a violation. Request handlers run with numwant=i32::MIN, negative left, max peers 0/1, port extremes inside the swarm_diff engines with overflow checks on.",
+    "level_note": "Trusted: the counting allocator, catch_unwind, the process boundary. The live trackers are attacked with the same corpus in the live engines.",
+    "design_ref": "3/C12",
+}
